@@ -4,6 +4,7 @@ import (
 	_ "github.com/bufbuild/bufverif/checks/c02"
 	_ "github.com/bufbuild/bufverif/checks/c06"
 	_ "github.com/bufbuild/bufverif/checks/c07"
+	_ "github.com/bufbuild/bufverif/checks/c08"
 	_ "github.com/bufbuild/bufverif/checks/c09"
 	_ "github.com/bufbuild/bufverif/checks/c12"
 	_ "github.com/bufbuild/bufverif/checks/c13"
